@@ -343,9 +343,10 @@ def check_intensity(surfs, recs, w):
         p, _ = to_local(rec[:3], rec[3:6], s)
         if s['aper'] is not None:
             r2 = p[0] ** 2 + p[1] ** 2
-            edge = min(abs(r2 - s['aper'][0] ** 2), abs(r2 - s['aper'][1] ** 2))
+            rims = [s['aper'][0]] + ([s['aper'][1]] if s['aper'][1] > 0 else [])
+            edge = min(abs(r2 - rr ** 2) for rr in rims)
             if edge < 1e-9 * (1 + r2):
-                break      # on the rim: either verdict is acceptable
+                break      # on a physical rim: either verdict is acceptable (r_min = 0 is not a rim)
             if r2 > s['aper'][0] ** 2 or r2 < s['aper'][1] ** 2:
                 exp_i = 0.0
                 clipped = True
